@@ -76,6 +76,40 @@ type CAOpts struct {
 	SKI        []byte // force this subject key identifier
 	OCSP       []string
 	CDP        []string
+	RawName    []byte // DER of the subject name, for names crypto/x509 would not produce (attribute order, unusual attribute types)
+}
+
+// Attr is one attribute of a distinguished name.
+type Attr struct {
+	OID   asn1.ObjectIdentifier
+	Value string
+}
+
+var (
+	OidC     = asn1.ObjectIdentifier{2, 5, 4, 6}
+	OidO     = asn1.ObjectIdentifier{2, 5, 4, 10}
+	OidOU    = asn1.ObjectIdentifier{2, 5, 4, 11}
+	OidCN    = asn1.ObjectIdentifier{2, 5, 4, 3}
+	OidDC    = asn1.ObjectIdentifier{0, 9, 2342, 19200300, 100, 1, 25}
+	OidEmail = asn1.ObjectIdentifier{1, 2, 840, 113549, 1, 9, 1}
+)
+
+// RawName renders a distinguished name exactly as given: one RDN per inner slice (several attributes = a multi-valued RDN),
+// in the given order.
+func RawName(rdns ...[]Attr) []byte {
+	var seq pkix.RDNSequence
+	for _, r := range rdns {
+		var set pkix.RelativeDistinguishedNameSET
+		for _, a := range r {
+			set = append(set, pkix.AttributeTypeAndValue{Type: a.OID, Value: a.Value})
+		}
+		seq = append(seq, set)
+	}
+	b, err := asn1.Marshal(seq)
+	if err != nil {
+		panic(err)
+	}
+	return b
 }
 
 // NewCA creates a self-signed CA or, with Parent, an intermediate.
@@ -101,6 +135,9 @@ func NewCA(o CAOpts) *CA {
 	tmpl := &x509.Certificate{SerialNumber: big.NewInt(serial), Subject: pkix.Name{CommonName: o.Name, Organization: []string{"verif"}},
 		NotBefore: time.Now().Add(-24 * time.Hour), NotAfter: time.Now().Add(24 * 365 * time.Hour), IsCA: !o.NotCA, BasicConstraintsValid: true,
 		KeyUsage: ku, ExtKeyUsage: o.ExtKU, OCSPServer: o.OCSP, CRLDistributionPoints: o.CDP}
+	if o.RawName != nil {
+		tmpl.RawSubject = o.RawName
+	}
 	if !o.NoSKI {
 		tmpl.SubjectKeyId = ski(key.Public())
 		if o.SKI != nil {
